@@ -178,6 +178,10 @@ class Run:
                 self.violations.append(("forward-open-close-format", f"{tag}: {detail}"))
             elif etag == "C10/double-register":
                 self.violations.append(("double-register", f"{tag}: {detail}"))
+            elif etag in ("C09/connection-path", "C09/forward-close-route") and not fault:
+                # a Forward Open / Forward Close whose connection path does not lead to the message router along the driver's route
+                # is not "a later open works again": a real target refuses it
+                self.violations.append(("I5-connection-path", f"{tag}: {detail}"))
         # I2: Forward Open order and sizes (per driver object = per run)
         seen_large_refused = False
         first = True
@@ -323,7 +327,7 @@ def fmt(hist):
 
 
 def shards(tier, seed):
-    return [("search", drv, pol) for drv in DRIVERS for pol in POLICIES]
+    return [("search", drv, pol) for drv in DRIVERS for pol in POLICIES] + [("search", "logix_noinit", "ok", "debuglog"), ("search", "cip", "large08", "debuglog"), ("search", "slc", "nofclose", "debuglog")]
 
 
 def describe(tier, seed):
